@@ -208,6 +208,23 @@ fn c09_cmr_replay() {
                         }
                     }
                 }
+                if let (Some(u), Some(vis)) = (build::<H>(&ctx, &Shape::Unit), build::<H>(&ctx, &s)) {
+                    // assertions whose executed child is hidden or visible, the pruned branch given by the root of `unit`
+                    // (seed C09-6): same root as the case node over the two expressions
+                    let unit = || Box::new(Shape::Unit);
+                    for (name, got, shape) in [
+                        ("assertl(hidden, #unit)", H::assertl(&hidden, u.cmr()), Shape::Case(bx(), unit())),
+                        ("assertl(visible, #unit)", H::assertl(&vis, u.cmr()), Shape::Case(bx(), unit())),
+                        ("assertr(#unit, hidden)", H::assertr(u.cmr(), &hidden), Shape::Case(unit(), bx())),
+                        ("assertr(#unit, visible)", H::assertr(u.cmr(), &vis), Shape::Case(unit(), bx())),
+                    ] {
+                        if let Ok(g) = got {
+                            if g.cmr().as_ref() != &reference(&shape)[..] {
+                                fails.push(format!("{} over {:?} has root {}, expected {:02x?}", name, s, g.cmr(), reference(&shape)));
+                            }
+                        }
+                    }
+                }
                 if let Some(u) = build::<Hiding<Arc<ConstructNode>>>(&ctx, &Shape::Unit) {
                     let want_case = reference(&Shape::Case(Box::new(s.clone()), Box::new(Shape::Unit)));
                     if let Ok(c) = Hiding::<Arc<ConstructNode>>::case(&hidden, &u) {
